@@ -773,9 +773,28 @@ func (g *gen) coBody(fc *fctx) (string, *fnSig, []Stmt) {
 		g.globals = append(g.globals, &varInfo{name: ga, k: kFn, sig: sig0, global: true}, &varInfo{name: gb, k: kFn, sig: sig0, global: true})
 	}
 	ny := 1 + g.ch(3)
+	var uvName, ufName string
+	if g.feat("closure") && g.ch(3) == 0 {
+		// a closure over a local of the very function that yields: both keep sharing it across suspensions
+		g.use("upvalue_across_yield")
+		uvName, ufName = g.fresh("uv"), g.fresh("uf")
+		gu := g.fresh("GU")
+		g.prog.NFuncs++
+		ufd := &FuncDef{ID: g.prog.NFuncs, Body: []Stmt{&Assign{Targets: []Expr{Var{uvName}}, Exprs: []Expr{Bin{"+", Var{uvName}, Num{1}}}}, &Return{Exprs: []Expr{Var{uvName}}}}}
+		body = append(body, &Local{Names: []string{uvName}, Exprs: []Expr{Num{float64(1 + g.ch(5))}}}, &Local{Names: []string{ufName}, Exprs: []Expr{Func{ufd}}},
+			&Assign{Targets: []Expr{Var{gu}}, Exprs: []Expr{Var{ufName}}})
+		g.globals = append(g.globals, &varInfo{name: gu, k: kFn, sig: &fnSig{nparams: 0, rets: []retT{{k: kNum}}, cost: 4}, global: true})
+	}
 	for y := 0; y < ny; y++ {
 		body = append(body, g.stmtsIn(g.ch(3), fc2)...)
 		body = append(body, g.yieldStmt(fc2)...)
+		if uvName != "" {
+			r := g.fresh("ur")
+			body = append(body,
+				&Assign{Targets: []Expr{Var{uvName}}, Exprs: []Expr{Bin{"+", Var{uvName}, Num{10}}}},
+				&Call{Names: []string{r}, Fn: Var{ufName}},
+				&Call{Fn: Var{"emit"}, Args: []Expr{Str{uvName}, Var{r}, Var{uvName}}})
+		}
 	}
 	body = append(body, g.stmtsIn(g.ch(2), fc2)...)
 	nr := g.yieldArity()
